@@ -343,7 +343,7 @@ func lexComment(l *lexer) stateFn {
 		return lexEOF
 	}
 
-	for unicode.IsSpace(rune(l.input[l.pos+i-1])) {
+	for strings.IndexByte(" \t\r", l.input[l.pos+i-1]) >= 0 {
 		i -= 1
 	}
 	l.pos += i
